@@ -959,11 +959,12 @@ def change_of_basis_Q2d_to_Pnm(cns, m):
         m = -m
 
     cs = cns
-    if hasattr(cs, 'dtype'):
-        # array, initialize as array
+    if hasattr(cs, 'dtype') and cs.dtype.kind == 'f':
+        # floating point array, initialize as array
         ds = np.empty_like(cs)
     else:
-        # iterable input
+        # iterable input, or an array of integers (for which empty_like
+        # would truncate the d_n to integers)
         ds = np.empty(len(cs), dtype=config.precision)
 
     N = len(cs) - 1
